@@ -13,13 +13,22 @@ every condition false/true; B=1, B=2: DJNZ and INIR/INDR/OTIR/OTDR last/repeat; 
 last/repeat; A=(HL): CPIR/CPDR found) + seeded random states, one Z80::emulate each; random instruction sequences; \
 interrupt entry in IM 0/1/2 and NMI, halted or not. Compared per step: the ordered (kind, address, clocks) sequence \
 of wait_mreq / wait_no_mreq / wait_internal / port cycles and the T-state total (interrupt entry: total and memory \
-cycles). distinct/non-trivial = distinct (encoding or interrupt kind, T-states consumed) pairs"
+cycles). Plus whole-machine lock-step programs (real Emulator vs Lean machine, clock compared after every instruction). distinct/non-trivial = distinct (encoding or interrupt kind, T-states consumed) pairs"
         .into();
     let mut model = Model::spawn(&o.model, "C01");
     if let Some(text) = &o.replay {
+        if text.starts_with("sys ") {
+            crate::sys::replay(o, &mut rep, "C03", text);
+            return rep;
+        }
         replay(o, Mode::C03, &mut rep, &mut model, text);
         return rep;
     }
     sweep(o, Mode::C03, &mut rep, &mut model);
+    // the same counts on the machine: the real Z80 inside the real Emulator (its bus, not a recording one) in
+    // lock-step with the Lean Z80 on the Lean Spectrum bus, the frame clock compared after every instruction —
+    // a cycle the machine's bus forgets to account (a write aimed at ROM, say) shows as a shorter instruction
+    let ts: Vec<usize> = vec![40, 3000, 9000, 60000, 65000];
+    crate::sys::lockstep(o, &mut rep, "C03", o.n(700, 40_000), &ts, &ts, false);
     rep
 }
